@@ -82,7 +82,7 @@ func VerifC03_SendSynthetic() {
 	s0 := vs.sess.AuthenticatedSequenceNumbers.Inbound
 	vAssume(s0 != 0xffffffff)
 	n := vLen(0, vParam("maxbody", 18))
-	netFn := vByte() & 0x3e // any request NetFn
+	netFn := vByte() & 0x3e                 // any request NetFn
 	vAssume(netFn != 0x2c && netFn != 0x2e) // group-extension and OEM NetFns add header bytes; covered by the DCMI harness
 	cmd := &vSynthCmd{op: ipmi.Operation{Function: ipmi.NetworkFunction(netFn), Command: ipmi.CommandNumber(vByte())}, lun: ipmi.LUN(vByte() & 3), body: vBytes(n)}
 	vs.ft.reply = func(attempt int, req []byte) ([]byte, error) { return nil, vErrLost }
